@@ -72,25 +72,94 @@ class FW:
     def __len__(self):
         return sum(s[-1] if s[0] != 'lit' else len(s[1]) for s in self.segs)
 
-    zero_bits = {}       # (a, n) -> symbolic 0/1: is the opaque file content [a, a+n) all zero bytes?
+    facts = {}           # (a, n, k, 'all'|'some') -> symbolic 0/1 about the opaque file content [a, a+n)
+
+    @staticmethod
+    def fact(a, n, k, which):
+        """symbolic truth of 'every byte of file[a, a+n) equals k' / 'some byte of file[a, a+n) equals k'"""
+        key = (a, n, k, which)
+        if key not in FW.facts:
+            v = FW.path.int('file_%d_%d_%s_bytes_equal_%d' % (a, n, which, k), lo=0, hi=1)
+            FW.facts[key] = v
+            other = FW.facts.get((a, n, k, 'some' if which == 'all' else 'all'))
+            if other is not None and n > 0:
+                al, so = (v, other) if which == 'all' else (other, v)
+                FW.path.assume(Or(al == 0, so == 1))          # all -> some
+            # at most one value can fill the whole stretch
+            if which == 'all':
+                for (a2, n2, k2, w2), v2 in list(FW.facts.items()):
+                    if (a2, n2, w2) == (a, n, 'all') and k2 != k and n > 0:
+                        FW.path.assume(Or(v == 0, v2 == 0))
+        return FW.facts[key] == 1
 
     def __iter__(self):
-        """iteration is only meaningful for questions like any(chunk) / all(chunk): every stretch of opaque file
-        content answers with one symbolic value that is 0 exactly if the whole stretch is zero bytes"""
+        """the content is opaque: iteration yields, per stretch of file content, two stand-in elements built so
+        that all(pred(b) for b in chunk) and any(pred(b) for b in chunk) - with pred one of bool(b), b == k,
+        b != k - get the truth value they have for the real bytes (see FWByte)"""
         for s in self.segs:
             if s[0] == 'lit':
                 yield from s[1]
             elif s[0] == 'zeros':
                 if s[-1]:
                     yield 0
-            else:
-                key = (s[1], s[2])
-                if key not in FW.zero_bits:
-                    FW.zero_bits[key] = FW.path.int('file_%d_%d_has_nonzero_byte' % key, lo=0, hi=1)
-                yield FW.zero_bits[key]
+            elif s[2] > 0:
+                yield FWByte(s[1], s[2], 1)
+                yield FWByte(s[1], s[2], 2)
 
-    def count(self, b):
-        raise core.EngineLimit('bytes.count on opaque firmware content')
+    def __eq__(self, o):
+        if isinstance(o, (bytes, bytearray)) and len(o) == len(self) and len(set(o)) <= 1:
+            if len(o) == 0:
+                return True
+            k = o[0]
+            conds = []
+            for s in self.segs:
+                if s[0] == 'lit':
+                    if any(b != k for b in s[1]):
+                        return False
+                elif s[0] == 'zeros':
+                    if k != 0 and s[-1]:
+                        return False
+                elif s[2] > 0:
+                    conds.append(FW.fact(s[1], s[2], k, 'all'))
+            return bool(And(*conds)) if conds else True
+        if isinstance(o, (bytes, bytearray)) and len(o) != len(self):
+            return False
+        if isinstance(o, FW):
+            return self.segs == o.segs or _fw_unknown('comparison of two firmware chunks')
+        raise core.EngineLimit('comparison of opaque firmware content with non-constant bytes')
+
+    def __ne__(self, o):
+        return not self.__eq__(o)
+
+    __hash__ = object.__hash__
+
+    def count(self, sub, start=None, end=None):
+        """how many bytes equal the single byte ``sub``: concrete for literal parts, one symbolic integer per stretch
+        of opaque content, tied to the all / some facts of that stretch"""
+        if isinstance(sub, int):
+            k = sub
+        elif isinstance(sub, (bytes, bytearray)) and len(sub) == 1:
+            k = sub[0]
+        else:
+            raise core.EngineLimit('bytes.count of a multi-byte pattern on opaque firmware content')
+        part = self[slice(start, end)] if (start is not None or end is not None) else self
+        total = 0
+        for s in part.segs:
+            if s[0] == 'lit':
+                total = total + s[1].count(k)
+            elif s[0] == 'zeros':
+                total = total + (s[-1] if k == 0 else 0)
+            elif s[2] > 0:
+                a, n = s[1], s[2]
+                key = (a, n, k, 'count')
+                if key not in FW.facts:
+                    c = FW.path.int('file_%d_%d_count_of_%d' % (a, n, k), lo=0, hi=n)
+                    FW.facts[key] = c
+                    al, so = FW.fact(a, n, k, 'all'), FW.fact(a, n, k, 'some')
+                    FW.path.assume(Or(And(al, c == n), And(Not(al), c < n)))
+                    FW.path.assume(Or(And(so, c >= 1), And(Not(so), c == 0)))
+                total = total + FW.facts[key]
+        return total
 
     def __add__(self, o):
         if isinstance(o, (bytes, bytearray)):
@@ -141,6 +210,57 @@ class SymLenFW:
 
     def __init__(self, n):
         self.n = n
+
+
+def _fw_unknown(what):
+    raise core.EngineLimit(what)
+
+
+class FWByte:
+    """stand-in for the bytes of one stretch [a, a+n) of opaque file content inside all(...) / any(...).
+    Two of them are yielded per stretch; for a predicate P in {bool(b), b == k, b != k}:
+        P(first)  is  'P holds for every byte of the stretch'
+        P(second) is  'P holds for some byte of the stretch'
+    so that all() = first and second = 'every', any() = first or second = 'some' (every implies some)."""
+
+    def __init__(self, a, n, role):
+        self.a, self.n, self.role = a, n, role
+
+    def _every(self, k, negate):
+        # every byte == k: all_k ; every byte != k: not some_k
+        return FW.fact(self.a, self.n, k, 'all') if not negate else Not(FW.fact(self.a, self.n, k, 'some'))
+
+    def _some(self, k, negate):
+        return FW.fact(self.a, self.n, k, 'some') if not negate else Not(FW.fact(self.a, self.n, k, 'all'))
+
+    def _p(self, k, negate):
+        return self._every(k, negate) if self.role == 1 else self._some(k, negate)
+
+    def __eq__(self, k):
+        if not isinstance(k, int):
+            raise core.EngineLimit('firmware byte compared with a non-integer')
+        return self._p(k, False)
+
+    def __ne__(self, k):
+        if not isinstance(k, int):
+            raise core.EngineLimit('firmware byte compared with a non-integer')
+        return self._p(k, True)
+
+    def __bool__(self):
+        return bool(self._p(0, True))
+
+    __hash__ = object.__hash__
+
+    def __getattr__(self, name):
+        if name.startswith('__'):
+            raise AttributeError(name)
+        raise core.EngineLimit('operation %s on an opaque firmware byte' % name)
+
+    def __index__(self):
+        raise core.EngineLimit('an opaque firmware byte used as a number')
+
+    __int__ = __index__
+    __lt__ = __le__ = __gt__ = __ge__ = __and__ = __or__ = __xor__ = __add__ = __sub__ = lambda self, o: _fw_unknown('arithmetic / ordering on an opaque firmware byte')
 
 
 class Response:
@@ -489,7 +609,7 @@ def run_once(p, L, variant, K, inject_mode, prof, sched='one'):
     ch, pages = VARIANTS[vi]
     prints, sleeps, holder, fwh = [], [], [None], {}
     FW.path, FW.tz = p, 0
-    FW.zero_bits = {}
+    FW.facts = {}
     if L == 'oversize':
         n = p.int('L', lo=0, hi=1 << 30)
         p.assume(n > pages * PAGE)
